@@ -202,24 +202,46 @@ Theorem C09_half_close_reply_on_domain : forall sched c u ueof,
 Proof. exact half_close_reply_on_domain. Qed.
 Print Assumptions C09_half_close_reply_on_domain.
 
-(* websocket: a handshake reply whose first segment carries the 12 tested bytes is accepted;
-   one split inside them is treated as a failed upgrade (finding F-C09-3). *)
-Theorem C09_ws_upgrade_on_domain : forall seg1, has_prefix seg1 ws_101 = true -> ws_upgraded seg1 = true.
-Proof. exact ws_upgrade_on_domain. Qed.
-Print Assumptions C09_ws_upgrade_on_domain.
+(* websocket (fix commit 9c9f13b: io.ReadAtLeast(out, b, 12)): however an upstream reply that
+   starts with "HTTP/1.1 101" is cut into segments, the handshake read succeeds (never out of
+   fuel), the forwarded chunk passes the prefix test and chunk ++ the rest the relay copies is
+   the reply unmodified. *)
+Theorem C09_ws_upgrade_any_segmentation : forall useg, has_prefix (concat useg) ws_101 = true ->
+  exists chunk rest, ws_read_first useg = Ok (Some (chunk, rest)) /\
+    has_prefix chunk ws_101 = true /\ chunk ++ concat rest = concat useg.
+Proof. exact ws_upgrade_any_segmentation. Qed.
+Print Assumptions C09_ws_upgrade_any_segmentation.
 
+Theorem C09_ws_read_first_never_out_of_fuel : forall useg, ws_read_first useg <> Err 77%N.
+Proof. exact ws_read_first_never_out_of_fuel. Qed.
+Print Assumptions C09_ws_read_first_never_out_of_fuel.
+
+(* F-C09-3, repaired by 9c9f13b.  The unrepaired single Read: the reply arriving as
+   "HTTP/1.1 1" + rest failed the prefix test; the same witness on the current model: the
+   upgrade succeeds and every byte is relayed. *)
 Theorem C09_ws_split_101_refuted :
-  exists e, has_prefix wit_reply ws_101 = true /\ region_ws_split KWs wit_reply 10 = true /\
-    scenario_expect KWs false [] [[1; 2]%N] 0 false CStay UAtConnect wit_reply 10 (nlen' wit_reply) UStay = Ok e /\
-    e_cl e = firstn 10 wit_reply /\ e_cl_hi e = 10%N /\ e_up e = [] /\
-    spec_b KWs false [] [1; 2]%N false CStay UAtConnect wit_reply UStay (e_up e) (e_cl e) = false.
+  has_prefix wit_reply ws_101 = true /\
+  ws_first_chunk_unrepaired (firstn 10 wit_reply) = firstn 10 wit_reply /\
+  ws_upgraded_unrepaired (firstn 10 wit_reply) = false /\
+  exists e, scenario_expect KWs false [] [[1; 2]%N] 0 false CStay UAtConnect wit_reply 10 (nlen' wit_reply) UStay = Ok e /\
+    e_cl e = wit_reply /\ e_cl_lo e = nlen' wit_reply /\ e_up e = [1; 2]%N /\ e_up_lo e = 2%N /\
+    spec_b KWs false [] [1; 2]%N false CStay UAtConnect wit_reply UStay (e_up e) (e_cl e) = true.
 Proof. exact ws_split_101_refuted. Qed.
 Print Assumptions C09_ws_split_101_refuted.
 
+(* An upstream that ends before 12 bytes have arrived: nothing is forwarded to the client. *)
+Theorem C09_ws_short_reply_nothing_forwarded :
+  exists e, scenario_expect KWs false [] [[1; 2]%N] 0 false CStay UAtConnect (firstn 10 wit_reply) 4 10 UClose = Ok e /\
+    e_cl e = [] /\ e_cl_hi e = 0%N /\ e_up e = [].
+Proof. exact ws_short_reply_nothing_forwarded. Qed.
+Print Assumptions C09_ws_short_reply_nothing_forwarded.
+
 (* The link between the scenario analysis and the specification, with the interval semantics of
-   the correspondence check: for all scenarios, outside the open finding regions (F-C09-2/3) and
+   the correspondence check: for all scenarios, outside the open finding region (F-C09-2) and
    the close-with-unread-reply race (kernel-decided, not generated), every observation within
-   the model's forced outcome satisfies spec_b.  Verdict 4 cannot arise from the model side. *)
+   the model's forced outcome satisfies spec_b.  Verdict 4 cannot arise from the model side.
+   [ws_head_first]: on the websocket path the harness's upstream may send only the first
+   [whead] bytes before it waits for its trigger; they must contain the status line. *)
 Theorem C09_tunnel_expect_meets_spec : forall up reply cwait ce ut ue o_up o_cl,
   let e := tunnel_expect up reply cwait ce ut ue in
   region_half_close cwait ce = false -> race_close_unread_reply up cwait ce ut = false ->
@@ -231,7 +253,6 @@ Print Assumptions C09_tunnel_expect_meets_spec.
 
 Theorem C09_scenario_meets_spec : forall k pp line segs fin cwait ce ut reply rseg1 whead ue e o_up o_cl,
   scenario_expect k pp line segs fin cwait ce ut reply rseg1 whead ue = Ok e ->
-  region_ws_split k reply rseg1 = false ->
   region_half_close cwait ce = false ->
   race_close_unread_reply (spec_upstream k pp line (concat segs)) cwait ce ut = false ->
   ws_head_first k ut whead = true ->
